@@ -27,6 +27,10 @@ CLAIMS = {
          "Structural necessary conditions decided over all paths of MakeMove/NewCastles/applyMoves/parseUCIMove: each castling right is cleared under both From and To tests of its geometric corner; the en-passant square is recorded only under pawn ∧ double step ∧ CanEnPassant evaluated pre-move; the halfmove clock is reset exactly on pawn moves and captures (captured piece read before any piece moves); fullmove uses the pre-flip colour; captured piece, promotion piece and castling rook go to the geometrically right squares; UCI move lists pass the pseudo-legality gate on the persistent board. A violation implies a position/move whose successor differs from the rules. One genuine defect is recorded as a known finding (int8 halfmove clock wraps after 128 reversible plies).",
          "Trusts go/ssa; does not decide CanEnPassant's pin logic or equality with the FIDE successor for concrete positions.",
          "DESIGN.md §3 C02, §4 F-2"),
+ "C01": ("dominance/reachability over SSA (legality filter after every make), call-site census of the generator (exhaustive and disjoint wiring), piece-attack pairing by def-use slices, constant evaluation of castling geometry, abstract interpretation of the promotion loops",
+         "Structural necessary conditions: every generated move that is played is filtered by InCheck(mover) before any descent; the two generator halves call every generator method exactly as often as needed with complementary target masks; every attack pattern is paired with the piece kinds geometry dictates; castling masks/emptiness/destination/rights are geometrically consistent; promotions enumerate exactly N,B,R,Q. A violation implies a position in which an illegal move is playable or a legal move is missing/duplicated. Equality of the generated set with FIDE move generation is not decided (perft tests + C12 remain the guard for the emitted squares).",
+         "Trusts go/ssa; BitBoardFromSquares/Castle helper semantics; does not decide that each generator emits the right squares.",
+         "DESIGN.md §3 C01, §3.0"),
 }
 
 NOT_YET = "no static rule of DESIGN.md §3 for this property is built in this revision yet; not claimed"
